@@ -27,7 +27,8 @@ def run(tier, seed):
         a_dis, a_per, a_samples = apicheck.account(rep, ares, abase)
         n_dis += a_dis
         nu2 = nu2 + ['%s: %s' % x for x in anot]
-    cov = {'obligations': n_dis + len(rep.violations) + len(rep.undecided) + len(rep.known_hits), 'discharged': n_dis,
+    cov = {'obligations': n_dis + len(rep.violations) + len(rep.undecided), 'discharged': n_dis,   # obligations that fail as recorded known findings are counted under known_finding_obligations only
+          
            'checker_cmd': 'goto-cc | goto-instrument --dfcc | cbmc (SAT, constants propagate) per class; see per_function', 'trusted_base': TRUSTED,
            'functions_under_contract': [p['function'] for p in per + r_per + a_per], 'functions_not_under_contract': not_under + nu2,
            'per_function': per + r_per + a_per, 'catalogue': cat, 'bounded': [], 'samples': (samples + r_samples + a_samples[:1]) or [{'note': 'nothing discharged'}],
